@@ -210,10 +210,10 @@ def find_cells(out, text):
     return None
 
 
-def run_probe(opt, style, true_color, extra=None):
+def run_probe(opt, style, true_color, extra=None, light=False):
     data, parent = probe_input(opt)
     _, add = PROBES[opt]
-    args = ['--paging', 'never', '--no-gitconfig', '--syntax-theme', 'none', '--true-color', 'always' if true_color else 'never', '--dark']
+    args = ['--paging', 'never', '--no-gitconfig', '--syntax-theme', 'none', '--true-color', 'always' if true_color else 'never', '--light' if light else '--dark']
     args += add
     if style is not None:
         args += ['--' + opt + '=' + style]
@@ -272,6 +272,13 @@ def plan(ctx):
                 items.append(('str', 'normal %d' % n, opt, n % 2 == 0, n))
     for i in range(ctx.n(600, 20000)):
         items.append(('rand', None, opts[i % len(opts)], i % 3 != 0, engine.stable_hash((ctx.seed, 'c12r', i))))
+    # the styles delta itself chooses (nothing given): light and dark mode x both colour modes.  What --show-config reports for
+    # them, supplied again, must give the same rendering - and a default is a colour of the mode's own kind
+    for opt in opts:
+        if opt in IN_SHOW_CONFIG:
+            for light in (False, True):
+                for tc in (False, True):
+                    items.append(('default', 'light' if light else 'dark', opt, tc, 0))
     return items
 
 
@@ -297,8 +304,37 @@ def decorate_case(rng, s):
     return ' '.join(out)
 
 
+def run_default_item(opt, light, true_color):
+    sets = {'options': [opt], 'color_mode': ['24bit' if true_color else '256'], 'defaults_of_mode': ['light' if light else 'dark']}
+    res, _ = run_probe(opt, None, true_color, light=light)
+    c = crashmod.classify(res)
+    if c is not None:
+        return violated('c12:crash:' + c['signature'], c['detail'], run=res, sets=sets)
+    if not true_color:
+        for r in term.decode(res.out.decode('utf-8', 'replace')):
+            for cl in r.cells:
+                for col in (cl.fg, cl.bg):
+                    if col and col[0] == 'rgb':
+                        return violated('c12:default-24bit-in-256-mode:%s' % opt, 'with --true-color never and no style given, the %s rendering uses a 24-bit colour' % ('light' if light else 'dark'),
+                                        'palette colours only', repr(col), run=res, sets=sets)
+    sc, _ = run_probe(opt, None, true_color, extra=['--show-config'], light=light)
+    m = re.search(r'^\s+%s\s+= (.*)$' % re.escape(opt), term.strip_escapes(sc.out.decode('utf-8', 'replace')), re.M)
+    if not m:
+        return inconclusive('option not in --show-config', sets=sets)
+    back = m.group(1).strip()
+    r2, _ = run_probe(opt, back, true_color, light=light)
+    if r2.rc != 0 or r2.out != res.out:
+        return violated('c12:show-config-round-trip-default:%s' % opt, 'the default style reported by --show-config (%r, %s mode) does not reproduce the default rendering when supplied'
+                        % (back, 'light' if light else 'dark'), 'identical rendering', 'rc %d, %s' % (r2.rc, 'different bytes' if r2.rc == 0 else r2.err[:100]), run=r2, sets=sets)
+    o = held(sig=('default', opt, light, true_color), nontrivial=True, counters={'round_trips': 1, 'default_round_trips': 1}, sets=sets)
+    o['executions'] = 3
+    return o
+
+
 def run_item(item):
     kind, s, opt, true_color, seed = item
+    if kind == 'default':
+        return run_default_item(opt, s == 'light', true_color)
     rng = engine.item_rng(seed)
     if kind == 'rand':
         toks = []
